@@ -39,7 +39,7 @@ Theorem orphan_own_file M fs c : keys_nodup M -> files M = Ok fs -> In c M -> pa
 Proof.
   intros HM Hf Hc Hp. split; [apply (files_complete M fs c); assumption|]. split.
   - rewrite (tree_nodes_T M c HM Hc). destruct (T_head (bound M) M c 0) as (tl & Et). rewrite Et. exists tl. reflexivity.
-  - intros ls Hw. unfold write_class in Hw. cbn [Nat.eqb negb short_name] in Hw.
+  - intros ls Hw. apply write_class_ok in Hw as [Hw _]. unfold write_class_lines in Hw. cbn [Nat.eqb negb short_name] in Hw.
     destruct (map_res _ _); cbn [bind] in Hw; [|discriminate]. injection Hw as <-.
     eexists. f_equal. destruct (cls_dst c); reflexivity.
 Qed.
@@ -379,4 +379,48 @@ Proof.
   - destruct (assoc_str name fs) as [c|] eqn:E; [|discriminate]. intros H. exists c. split; [|exact H].
     apply (assoc_str_in name fs c Hn). exact E.
   - intros (c & Hin & Hw). apply (assoc_str_in name fs c Hn) in Hin. rewrite Hin. exact Hw.
+Qed.
+
+(* ---------- round 5: a comment the format cannot store is refused, never written wrongly ---------- *)
+
+Lemma map_res_err_in {A B} (f : A -> res B) l x : In x l -> f x = Err -> map_res f l = Err.
+Proof.
+  induction l as [|a l IH]; intros Hin Hx; [destruct Hin|]. cbn [map_res].
+  destruct Hin as [->|Hin]; [rewrite Hx; reflexivity|].
+  destruct (f a); [|reflexivity]. cbn [bind]. rewrite (IH Hin Hx). reflexivity.
+Qed.
+
+(* Th: when some class of the set carries a comment with a line ending in CR (on the class, a field, a method or a
+   parameter), the stream writer and the directory writer return an error — whichever file the class belongs to *)
+Theorem unwritable_comment_refused M c : keys_nodup M -> In c M -> class_docs_writable c = false ->
+  write_all M = Err /\ write_dir M = Err.
+Proof.
+  intros HM Hc Hw. unfold write_all, write_dir. destruct (files M) as [fs|] eqn:Hf; [|split; reflexivity]. cbn [bind].
+  destruct (one_file M fs HM Hf) as (nodes & Hn & Hp).
+  rewrite (file_nodes_forest M fs HM Hf) in Hn. apply Ok_inj in Hn. subst nodes.
+  assert (Hin : In c (map fst (concat (map (fun nc => T (bound M) M (snd nc) 0) fs)))) by (eapply Permutation_in; eauto).
+  apply in_map_iff in Hin as ([c' d] & E & Hin). cbn [fst] in E. subst c'.
+  apply in_concat in Hin as (ns & Hns & Hcd). apply in_map_iff in Hns as (nc & <- & Hnc).
+  assert (Hr : In (snd nc) M).
+  { assert (H : In (snd nc) (roots M)) by (eapply Permutation_in; [apply files_roots; exact Hf|apply in_map; exact Hnc]).
+    apply filter_In in H. apply H. }
+  assert (Ht : write_tree M (snd nc) = Err).
+  { unfold write_tree. rewrite (tree_nodes_T M (snd nc) HM Hr). cbn [bind]. unfold write_nodes.
+    rewrite (map_res_err_in _ _ (c, d) Hcd); [reflexivity|]. cbn [fst snd]. unfold write_class. rewrite Hw. reflexivity. }
+  split.
+  - rewrite (map_res_err_in _ fs nc Hnc); [reflexivity|]. rewrite Ht. reflexivity.
+  - apply (map_res_err_in _ fs nc Hnc). destruct (dir_name_ok (fst nc) && fs_name_ok (fst nc)); [|reflexivity]. rewrite Ht. reflexivity.
+Qed.
+
+(* … and only then (for the comment layer): the predicate is exactly "some comment has a line ending in CR" *)
+Theorem class_docs_writable_spec c :
+  class_docs_writable c = true <->
+  docb (c_doc c) = true /\ (forall f, In f (c_fields c) -> docb (f_doc f) = true)
+  /\ (forall m, In m (c_methods c) -> docb (m_doc m) = true /\ forall p, In p (m_params m) -> docb (p_doc p) = true).
+Proof.
+  unfold class_docs_writable, meth_docs_writable, docb. rewrite !andb_true_iff, !forallb_forall. split.
+  - intros [[H1 H2] H3]. split; [exact H1|]. split; [exact H2|]. intros m Hm. specialize (H3 m Hm).
+    apply andb_true_iff in H3 as [H3 H4]. rewrite forallb_forall in H4. split; assumption.
+  - intros (H1 & H2 & H3). split; [split; assumption|]. intros m Hm. destruct (H3 m Hm) as [H4 H5].
+    apply andb_true_iff. split; [exact H4|]. apply forallb_forall. exact H5.
 Qed.
